@@ -315,6 +315,10 @@ def F1(ctx: Ctx) -> RuleResult:
                         vals[other[0]] = v
             if o.kind == 'return' and isinstance(o.value, New) and o.value.get('token') != C(0):
                 r.fail('boolean:token', 'literal token is not the lexeme', fi.where)
+    if not vals and len(outs) == 1 and outs[0].kind == 'return' and isinstance(outs[0].value, New) and outs[0].value.get('token') == C(0) \
+            and outs[0].value.get('value') == Op('==', (C(0), Const('True'))):
+        # HplLiteral(token, token == 'True'): the same map, provided the token is one of the two lexemes
+        vals = {'True': Const(True), 'False': Const(False)}
     if vals == {'True': Const(True), 'False': Const(False)}:
         r.ok("boolean: 'True' -> True, 'False' -> False")
     else:
